@@ -51,7 +51,8 @@ TMathFn == LET r == Events[l] IN
 (* C17: construction, SetValue and MutableValue store exactly the given numbers (full-precision values of the type) *)
 TMutator == LET r == Events[l] IN
   /\ IsEvent("Mutator") /\ r.type \in DOMAIN Shapes /\ r.n > 0
-  /\ Flag(r.ctor_bad = 0 /\ r.set_bad = 0 /\ r.mutable_bad = 0, [cls |-> "mutator", type |-> r.type, num |-> r.num])
+  /\ r.forms_tried > 0                  \* at least one constructor form taking the components themselves exists for every type
+  /\ Flag(r.ctor_bad = 0 /\ r.set_bad = 0 /\ r.mutable_bad = 0 /\ r.forms_bad = 0, [cls |-> "mutator", type |-> r.type, num |-> r.num])
   /\ UNCHANGED seen
 TFinish == /\ l = Len(Events) + 1 /\ l' = l + 1
            /\ JsonSerialize(IOEnv.OUT, [bad |-> bad, layout |-> Cardinality(seen.layout), cast |-> Cardinality(seen.cast),
